@@ -1,5 +1,6 @@
 import StyluaModel.Model.ParenRule
 import StyluaModel.Spec.Prec
+import StyluaModel.Spec.Parser
 /- `expr` / `faithful` protocols: compact S-expressions, membership of the real output in
 the set of outputs the model admits (over all layout oracles). -/
 namespace Driver.ExprProto
@@ -134,6 +135,15 @@ def handleExpr (v entry i o : String) : String :=
       | some (path, _) => s!"ok {path}"
       | none => s!"no single={render (fmtS v (if entry == "prefix" then .prefix else .std) (if entry == "cond" then stripCond ei else ei))}"
   | _, _, _ => "bad-op"
+
+/-- `parse <tree>`: print the tree to tokens, run the parser mirror, render what it reads -/
+def handleParse (i : String) : String :=
+  match parse i with
+  | some e =>
+      match StyluaModel.Parser.parse 100000 (StyluaModel.Parser.print e) with
+      | some e' => render e'
+      | none => "none"
+  | none => "bad-op"
 
 def handleFaithful (i : String) : String :=
   match parse i with
